@@ -19,7 +19,9 @@ Folds == {2, 4, 8, 16}
 LayoutCases == {[n |-> 2 ^ ln, f |-> f, ps |-> ps] : ln \in 3..5, f \in Folds, ps \in {<<>>}} \* placeholder, refined below
 PosLists(n) == UNION {[1..k -> 0..(n - 1)] : k \in 1..2} \cup {<<0, n - 1, n \div 2>>, <<1, 1, 1>>, <<n - 1, n \div 4, n - 1>>}
 
-SchedCases == {[ln |-> ln, lb |-> lb, f |-> f, rem |-> 2 ^ r - 1] : ln \in 3..MaxLn, lb \in 1..7, f \in Folds, r \in 0..8}
+\* remainder degree bounds: FriOptions accepts every value 0..255 (ProofOptions only one less than a power of two)
+Rems == {2 ^ r - 1 : r \in 0..8} \cup {2, 4, 5, 6, 12, 100, 200, 254}
+SchedCases == {[ln |-> ln, lb |-> lb, f |-> f, rem |-> rem] : ln \in 3..MaxLn, lb \in 1..7, f \in Folds, rem \in Rems}
 StratCases == {[s |-> s] : s \in Strategies}
 
 Init == \/ /\ kind = "layout" /\ \E ln \in 3..5, f \in Folds : 2 ^ ln \div f >= 2 /\ \E ps \in PosLists(2 ^ ln) : c = [n |-> 2 ^ ln, f |-> f, ps |-> ps]
